@@ -135,10 +135,14 @@ class Ctx:
         if must: raise Broken('function %r not found uniquely in IR (renamed/removed?): %s' % (pat, c[:8]))
         return None
 
-    def translate(s, m, entries, stubs=(), overrides=None, out='eng', prefix='', keep=(), opt_stubs=(), globals_=()):
+    def translate(s, m, entries, stubs=(), overrides=None, out='eng', prefix='', keep=(), opt_stubs=(), globals_=(), env_tables=None):
         ent = [s.find(m, e) for e in entries]
         st = [s.find(m, e) for e in stubs] + [x for x in (s.find(m, e, False) for e in opt_stubs) if x]
         em = ll2c.Emitter(m, st, overrides or {}, False, prefix=prefix, keep=[s.find(m, k, False) or k for k in keep])
+        for k, v in (env_tables or {}).items():
+            c2 = [g for g in m.globals if k in g]
+            if len(c2) != 1: raise Broken('environment table %r not found uniquely in IR' % k)
+            em.env_tables[c2[0]] = v
         try:
             gl = []
             for g in globals_:
